@@ -1013,7 +1013,7 @@ class Live:
             d = call(ctx.todict)
             self.need(d.ok, 'todict', lambda: d.text())
             dd = storeutil.permute_dict(d.value, perm) if (raw and perm) else d.value
-            out = call(C.Context.fromdict, dd, raw=raw)
+            out = call(C.Context.fromdict, dd, raw=True) if raw else call(C.Context.fromdict, dd)
             self.need(out.ok, 'fromdict', lambda: f'fromdict raised {out.text()} rows={f.rows} perm={perm}')
             sl.add_ctx(out.value)
             sl.add_lat(out.value.lattice, f'fromdict(raw={raw},perm={perm})')
